@@ -142,6 +142,13 @@ def run(ctx):
     for rep in range(2 if quick else 8):
         vecs.append({"id": "toprank-jit-%d" % rep, "fam": "pipe", "sig": "toprank", "cmd": "toprankgate", "N": 40, "T": 1,
                      "mode": "jitter", "jseed": ctx.seed * 77 + rep})
+    # the fan-out commands: the per-query goroutines report to Main in every order (3 queries: all 6; thorough also 4: all 24)
+    import itertools
+    for cmd in pipetrace.FANOUT:
+        for n in ([3] if quick else [3, 4]):
+            for order in itertools.permutations(range(n)):
+                vecs.append({"id": "fanout-%s-%s" % (cmd, "".join(map(str, order))), "fam": "pipe", "sig": cmd, "cmd": cmd, "N": n, "T": 2,
+                             "mode": "gate", "order": list(order)})
     obs = kernel.run_vectors(ctx, "pipe", vecs, tag="pipe")
     rows = read_ndjson(obs)
     skipped = []
@@ -158,6 +165,8 @@ def run(ctx):
     # (1) traces of the small runs against the specification
     small = [r for r in rows if r["id"] not in skipped and r["vec"]["cmd"] in pipetrace.TOPO and r["vec"]["N"] <= 6 and not r["obs"].get("timeout") and not r["obs"].get("panic")]
     rejected = pipetrace.validate_traces(ctx, small)
+    fan = [r for r in rows if r["vec"]["cmd"] in pipetrace.FANOUT and r["vec"]["N"] == 3 and not r["obs"].get("timeout") and not r["obs"].get("panic")]
+    rejected += pipetrace.validate_fanout_traces(ctx, fan)
     for r, why in rejected:
         ctx.add_failure("trace-rejected", r["vec"]["sig"], r["id"], {"vec": r["vec"], "why": why, "observed": r["obs"], "family": "pipe"})
     # (1b) the pipeline runs performed by the repository's own tests, as traces (their assertions only compare outputs)
